@@ -154,6 +154,9 @@ enum Kind {
     SinkReady,
     SinkFlush,
     SinkClose,
+    /// an opaque future polled inside another opaque future: the innermost implementor sees a waker that has
+    /// crossed two boundaries (the library's own per-poll borrowed waker is the "caller's waker" of the inner one)
+    NestedFuture,
 }
 
 #[derive(Default)]
@@ -247,6 +250,16 @@ impl futures::Sink<u32> for Scripted {
     fn poll_close(mut self: Pin<&mut Self>, cx: &mut Context<'_>) -> Poll<Result<(), u32>> {
         self.run(cx);
         Poll::Pending
+    }
+}
+
+/// forwards its poll to an opaque future, handing on the context it was polled with
+struct Outer<F>(F);
+
+impl<F: Future<Output = u32> + Unpin> Future for Outer<F> {
+    type Output = u32;
+    fn poll(mut self: Pin<&mut Self>, cx: &mut Context<'_>) -> Poll<u32> {
+        Pin::new(&mut self.0).poll(cx)
     }
 }
 
@@ -405,6 +418,7 @@ impl Sut {
         }
         match self.kind {
             Kind::Future => drive!(trait_obj!(Scripted(world.clone()) as Future), |p: Pin<&mut _>, cx: &mut Context| Future::poll(p, cx).is_pending()),
+            Kind::NestedFuture => drive!(trait_obj!(Outer(trait_obj!(Scripted(world.clone()) as Future)) as Future), |p: Pin<&mut _>, cx: &mut Context| Future::poll(p, cx).is_pending()),
             Kind::Stream => drive!(trait_obj!(Scripted(world.clone()) as Stream), |p: Pin<&mut _>, cx: &mut Context| futures::Stream::poll_next(p, cx).is_pending()),
             Kind::SinkReady => drive!(trait_obj!(Scripted(world.clone()) as Sink), |p: Pin<&mut _>, cx: &mut Context| futures::Sink::<u32>::poll_ready(p, cx).is_pending()),
             Kind::SinkFlush => drive!(trait_obj!(Scripted(world.clone()) as Sink), |p: Pin<&mut _>, cx: &mut Context| futures::Sink::<u32>::poll_flush(p, cx).is_pending()),
@@ -469,6 +483,7 @@ fn kind_of(name: &str) -> Kind {
         "stream" => Kind::Stream,
         "sink_ready" => Kind::SinkReady,
         "sink_flush" => Kind::SinkFlush,
+        "nested_future" => Kind::NestedFuture,
         _ => Kind::SinkClose,
     }
 }
@@ -476,7 +491,7 @@ fn kind_of(name: &str) -> Kind {
 fn main() {
     std::panic::set_hook(Box::new(|_| {}));
     let mut sections = Vec::new();
-    for name in ["future", "stream", "sink_ready", "sink_flush", "sink_close", "future_nulldata", "sink_flush_nulldata"] {
+    for name in ["future", "stream", "sink_ready", "sink_flush", "sink_close", "future_nulldata", "sink_flush_nulldata", "nested_future"] {
         let kind = kind_of(name);
         let null_data = name.ends_with("_nulldata");
         sections.push(Section {
